@@ -987,3 +987,45 @@ Proof.
   destruct (run_lazy t fl config0 supplied None regexes find call fuel' ms'' g0) as [[ls2 p2]|e|x|] eqn:E2; cbn [run_same] in RS; try contradiction.
   exact (lazy_block_order_fail_scoped_real_partial rx t fl supplied regexes find call okfn Hcall g0 Hcl Hglob fuel ms ms'' HP Hok Hno Hoof fuel' (ls2, p2) E2).
 Qed.
+
+(* (4) NON-VACUITY ON A REAL PAIR (Proofs/LocSimExample.v): the texts
+         (a) @x { node @x.n  attr (@x.n) k = "A" }  (b) @y { node @y.n  attr (@y.n) k = "B" }     and the same two stanzas swapped
+   are loaded by the LOADER MODEL (`Loader.load`: parser model, then checker model, with the merged-query tables of each text).  The loaded files rr_flAB,
+   rr_flBA differ in all locations and in the file capture indices of @x / @y; the old hypothesis is false of them; `reloc_rest` and `block_rel` (renaming
+   0 <-> 2, matches renamed accordingly) hold; the theorem gives, from the run of AB alone, the run of BA on its matches in ITS stanza order (the blocks of
+   AB in the other order: `rr_ms'`) and in node order (`rr_ms'_ts`), with an isomorphic graph; by evaluation the graph of BA in its stanza order is a
+   different list. *)
+From TSG Require Import Model.Loader Proofs.LocSimExample.
+Example c08_real_reordered_files :
+  rr_ldAB = Loader.LdOk rr_flAB [] /\ rr_ldBA = Loader.LdOk rr_flBA [] /\
+  ~ Permutation (f_stanzas rr_flAB) (f_stanzas rr_flBA) /\
+  reloc_rest rr_flAB rr_flBA /\
+  Permutation rr_ms [(1, rr_mB); (0, rr_mA)] /\ rr_ms <> [(1, rr_mB); (0, rr_mA)] /\
+  Forall2 (block_rel rr_flAB rr_flBA) (blocks_of rr_flAB [(1, rr_mB); (0, rr_mA)]) (blocks_of rr_flBA rr_ms') /\
+  Forall2 (block_rel rr_flAB rr_flBA) (blocks_of rr_flAB rr_ms) (blocks_of rr_flBA rr_ms'_ts) /\
+  Forall (pm_ok2 (normalize_file rr_flAB) nofn) rr_ms /\
+  (exists ls p,
+     run_lazy K7.k7_tree rr_flAB config0 [[]] None ([] : list Regex.regex) Regex.rx_captures rr_call default_fuel rr_ms [] = Ok (ls, p) /\ l_graph ls = rr_gAB /\
+     (exists r r', (forall i, r' (r i) = i) /\ (forall i, r (r' i) = i) /\
+        exists fuel0, forall fuel', (fuel0 <= fuel')%nat -> exists ls' p',
+          run_lazy K7.k7_tree rr_flBA config0 [[]] None ([] : list Regex.regex) Regex.rx_captures rr_call fuel' rr_ms' [] = Ok (ls', p') /\
+          graph_iso r (l_graph ls) (l_graph ls')) /\
+     (exists r r', (forall i, r' (r i) = i) /\ (forall i, r (r' i) = i) /\
+        exists fuel0, forall fuel', (fuel0 <= fuel')%nat -> exists ls' p',
+          run_lazy K7.k7_tree rr_flBA config0 [[]] None ([] : list Regex.regex) Regex.rx_captures rr_call fuel' rr_ms'_ts [] = Ok (ls', p') /\
+          graph_iso r (l_graph ls) (l_graph ls'))) /\
+  (exists ls' p',
+     run_lazy K7.k7_tree rr_flBA config0 [[]] None ([] : list Regex.regex) Regex.rx_captures rr_call default_fuel rr_ms' [] = Ok (ls', p') /\
+     l_graph ls' = rr_gBA /\ length rr_gBA = 2%nat /\ rr_gBA <> rr_gAB).
+Proof.
+  destruct rr_loaded as (L1 & L2). destruct rr_perm as (P1 & P2).
+  split; [exact L1|]. split; [exact L2|]. split; [exact rr_old_hypothesis_false|]. split; [exact rr_rest|]. split; [exact P1|]. split; [exact P2|].
+  split; [exact rr_blocks_related|]. split; [exact rr_blocks_related_ts|]. split; [exact rr_blocks_ok|]. split; [|exact rr_run_BA].
+  destruct rr_run_AB as (ls & p & E & Hg & _). exists ls, p. split; [exact E|]. split; [exact Hg|]. split.
+  - destruct (lazy_stanza_reorder_real_partial _ K7.k7_tree rr_flAB rr_flBA [[]] [] Regex.rx_captures rr_call nofn (nofn_ok _ _) [] nil_closed rr_globals
+                default_fuel rr_ms rr_ms' ls p rr_rest (ex_intro _ _ (conj P1 rr_blocks_related)) rr_blocks_ok E) as (r & r' & I1 & I2 & _ & H).
+    exists r, r'. split; [exact I1|]. split; [exact I2|exact H].
+  - destruct (lazy_stanza_reorder_real_partial _ K7.k7_tree rr_flAB rr_flBA [[]] [] Regex.rx_captures rr_call nofn (nofn_ok _ _) [] nil_closed rr_globals
+                default_fuel rr_ms rr_ms'_ts ls p rr_rest (ex_intro _ _ (conj (Permutation_refl _) rr_blocks_related_ts)) rr_blocks_ok E) as (r & r' & I1 & I2 & _ & H).
+    exists r, r'. split; [exact I1|]. split; [exact I2|exact H].
+Qed.
